@@ -30,7 +30,7 @@ class C11:
             "cyclic), x.toml and SBOM files, a sibling layer y with its own toml/SBOM, canary trees; in a quarter of "
             "the cases <layers>/x is itself a symlink (to a canary directory, the sibling layer, a file, dangling) or a "
             "plain file or absent. Operations: delete_layer, remove_dir_recursively, read_layer, write_layer, replace_layer_types and replace_layer_metadata through the cfg-guarded "
-            "hooks, recreate through BuildContext::uncached_layer, run as uid 65534. non-trivial = the layer path exists before the call. The environment model "
+            "hooks, recreate through BuildContext::uncached_layer, keep through BuildContext::cached_layer, run as uid 65534. non-trivial = the layer path exists before the call. The environment model "
             "FS.v is validated in the same run by the fsops stream (random primitive std::fs call sequences).")
     trusted_base = [
         "Coq 8.16.1 kernel + vm_compute",
@@ -138,7 +138,7 @@ class C11:
             if rng.random() < 0.1:
                 # the layers directory itself not writable
                 init[1]["m"] = 0o555
-            op = rng.choice(["delete_layer", "delete_layer", "rdr", "recreate", "read_layer", "write_layer", "replace_types", "replace_metadata"])
+            op = rng.choice(["delete_layer", "delete_layer", "rdr", "recreate", "read_layer", "write_layer", "replace_types", "replace_metadata", "keep"])
             top = next((n for n in init if n["p"] == x), None)
             if op == "recreate" and (top is None or top["k"] != "d"):
                 op = "delete_layer"       # "recreate" is a request for a layer that exists as a directory
@@ -178,7 +178,7 @@ class C11:
         r = o["res"]
         res = "ROk" if r["ok"] else (f"(RErrno {r['err']})" if r["err"] in ERRS else "ROther")
         op = {"delete_layer": "OpDeleteLayer", "rdr": "OpRdr", "recreate": "OpRecreate", "read_layer": "OpReadLayer", "write_layer": "OpWriteLayer",
-              "replace_types": "OpReplaceTypes", "replace_metadata": "OpReplaceMetadata"}[c["op"]]
+              "replace_types": "OpReplaceTypes", "replace_metadata": "OpReplaceMetadata", "keep": "OpKeep"}[c["op"]]
         return f"(mkCase {cq_fs(o['pre'])} {cq_path(c.get('m_layers', c['layers']))} {cq_bytes(c.get('m_name', c['name']))} {op} {res} {cq_fs(o['post'])})"
 
     def nontrivial(self, c, o):
@@ -186,7 +186,7 @@ class C11:
         return any(n["p"] == x for n in c["init"])
 
     def classify(self, c, o):
-        if c["op"] in ("write_layer", "replace_types", "replace_metadata"):
+        if c["op"] in ("write_layer", "replace_types", "replace_metadata", "keep"):
             return c["op"] + ("-ok" if o["res"]["ok"] else "-err")
         x = c["layers"] + [c["name"]]
         top = next((n for n in c["init"] if n["p"] == x), None)
